@@ -272,4 +272,4 @@ NOT_APPLICABLE = {p: "check not built yet in this commit (work in progress; the 
                   []}
 
 # commits in /repo that add build-tag-guarded hooks
-HOOK_COMMITS = ["d7875c1"]
+HOOK_COMMITS = ["d7875c1", "4754e31"]
